@@ -205,8 +205,10 @@ CLAIMED = {
                      "deserialization, for all histories; check_inv on the implementation dump after every op -- also after every "
                      "operation interrupted by an injected panic (findings F13: len() stale after a panicking Drop in clear, repaired by "
                      "/repo 3a72c59; F16: World::extend counted the batch before the fallible call, repaired; a probe program covers "
-                     "the caught panics no history can build). At the level of identifiers and rows alone (coq/Model/CloneFromW.v) the "
-                     "slot<->row invariant is proved preserved by World::remove for every world, whatever Drop panics.",
+                     "the caught panics no history can build; the two orderings are source-derived facts and C13_len_after_interrupted_"
+                     "clear/extend are proved on them). At the level of identifiers and rows alone (coq/Model/CloneFromW.v) the "
+                     "slot<->row invariant is proved preserved by World::remove, by a push and by a shape change, for every world, "
+                     "whatever Drop panics.",
                 technique="Rocq proof of invariant preservation by induction over histories + model/implementation correspondence",
                 ref="DESIGN.md §7 C13"),
     "C16": dict(engine="world-histories",
